@@ -2,6 +2,7 @@ package cty
 
 import (
 	"fmt"
+	"sort"
 	"strings"
 )
 
@@ -71,18 +72,13 @@ func (m ValueMarks) Equal(o ValueMarks) bool {
 }
 
 func (m ValueMarks) GoString() string {
-	var s strings.Builder
-	s.WriteString("cty.NewValueMarks(")
-	i := 0
+	// Sorted, so that the result does not depend on the map iteration order.
+	strs := make([]string, 0, len(m))
 	for mv := range m {
-		if i != 0 {
-			s.WriteString(", ")
-		}
-		s.WriteString(fmt.Sprintf("%#v", mv))
-		i++
+		strs = append(strs, fmt.Sprintf("%#v", mv))
 	}
-	s.WriteString(")")
-	return s.String()
+	sort.Strings(strs)
+	return "cty.NewValueMarks(" + strings.Join(strs, ", ") + ")"
 }
 
 // PathValueMarks is a structure that enables tracking marks
